@@ -8,7 +8,7 @@ COQ_EXTRACT = "Extract_C01.v"
 LEVEL = "proof"
 RULE = ("cases = pairs (A,B) of explicit tree automata over {a/0,b/0,g/1,f/2}(+h/3): corpus; complete slice (all A with <=2 states and <=2 rules "
         "x all B with 1 state and <=2 rules, every final set); targeted families (leaf symbol of A missing in B, quotient pairs B->image(B), "
-        "near-miss pairs, non-singleton macro-states, useless states, overlapping numbers, split pairs, operands that are two copies of one automaton (shared transition table) with different final states); random pairs up to 4+4 states. Each case runs all 8 "
+        "near-miss pairs, non-singleton macro-states, useless states, overlapping numbers, split pairs, coherent defective copies and coinductive traps (a positive answer obtained under a cyclic hypothesis that is refuted later and asked for again), operands that are two copies of one automaton (shared transition table) with different final states); random pairs up to 4+4 states. Each case runs all 8 "
         "selections following the CLI protocol and the 4 selections without simulation also directly on the caller's operands. Non-trivial = both languages non-empty; distinct by rule/final sets of the pair")
 EXHAUSTIVE_SLICES = "all A with <=2 states, <=2 rules x all B with 1 state, <=2 rules over {a/0,b/0,g/1,f/2}, every final set (the run as a whole is not exhaustive)"
 TRUSTED_BASE = [
@@ -91,6 +91,12 @@ def cases(rng, tier):
         cs = cs[:len(CORPUS)] + rng.sample(cs[len(CORPUS):], 4000) if False else cs
     for (a, b) in targeted(rng): cs.append(("incl %s %s" % (a.fmt(), b.fmt()), "targeted"))
     for (a, b) in split_family(rng, 5000 if tier == "quick" else 40000): cs.append(("incl %s %s" % (a.fmt(), b.fmt()), "targeted_split"))
+    for _ in range(1200 if tier == "quick" else 15000):   # a positive answer obtained under a cyclic hypothesis that is refuted later, asked for again
+        a, b = gen.coinductive_trap_pair(rng)
+        cs.append(("incl %s %s" % (a.fmt(), b.fmt()), "coinductive_trap"))
+    for _ in range(400 if tier == "quick" else 8000):
+        a, b = gen.defective_copies_pair(rng)
+        cs.append(("incl %s %s" % (a.fmt(), b.fmt()), "defective_copies"))
     for (a, b) in shared_family(rng, 1500 if tier == "quick" else 15000): cs.append(("incl %s %s" % (a.fmt(), b.fmt()), "shared_table"))
     n = 2000 if tier == "quick" else 40000
     for _ in range(n):
